@@ -37,6 +37,10 @@ pub struct Spec {
 fn force_multiparty(w: &World, i: usize) -> Option<World> {
     let mut w = w.clone();
     let s = w.layout.steps.get(i)?.clone();
+    // a step delegated by two functionaries (threshold 2) is multi-party already
+    if s.threshold >= 2 && w.links.iter().filter(|f| f.step == s.name && matches!(f.body, Body::Sub { .. })).count() >= 2 {
+        return Some(w);
+    }
     if s.pubkeys.len() < 2 {
         return None;
     }
@@ -131,7 +135,7 @@ impl Property for C07 {
     }
     fn rule() -> String {
         "Generated: valid worlds in which one step is made multi-party (threshold t in 2..4, k in t..4 authorised, validly signed links \
-         with identical materials and products), then exactly one link is edited and re-signed by its own key: one path renamed, one digest \
+         with identical materials and products), then exactly one link (or, when two functionaries delegated the step, the inner evidence of one functionary's own copy) is edited and re-signed by its own key: one path renamed, one digest \
          changed, one algorithm changed or added/removed, one entry added or removed - in materials or in products; the dissenter's position \
          in key-id order is varied (first/middle/last). Oracle: Ok only if all counted links of every step with threshold >= 2 have equal \
          materials and equal products. Non-trivial: the dissent is real (maps differ) and the control without dissent verifies Ok; distinct \
@@ -146,8 +150,9 @@ impl Property for C07 {
     }
     fn strategy(_tier: Tier) -> BoxedStrategy<Spec> {
         let cfg = Cfg { min_steps: 1, max_steps: 3, max_owners: 1, max_threshold: 4, two_digests: true, ..Cfg::basic() };
+        let cfg_sub = Cfg { min_steps: 1, max_steps: 2, max_owners: 1, max_threshold: 2, sub_depth: 1, multi_sub: true, ..Cfg::basic() };
         (
-            valid_world(cfg),
+            prop_oneof![4 => valid_world(cfg), 1 => valid_world(cfg_sub)],
             any::<u8>(),
             prop_oneof![Just(0u8), Just(128u8), Just(255u8), any::<u8>()],
             any::<bool>(),
@@ -171,11 +176,34 @@ impl Property for C07 {
         let pos = (spec.position as usize * idxs.len()) >> 8;
         let target = idxs[pos.min(idxs.len() - 1)];
         let mut real = false;
-        if let Body::Link { link, .. } = &mut w.links[target].body {
-            let side = if spec.products_side { &mut link.products } else { &mut link.materials };
-            let changed = dissenting(side, &spec.dissent, spec.entry);
-            real = &changed != side;
-            *side = changed;
+        match &mut w.links[target].body {
+            Body::Link { link, .. } => {
+                let side = if spec.products_side { &mut link.products } else { &mut link.materials };
+                let changed = dissenting(side, &spec.dissent, spec.entry);
+                real = &changed != side;
+                *side = changed;
+            }
+            Body::Sub { world: inner, .. } => {
+                // the dissent is inside this functionary's own copy of the delegation: all links of the
+                // inner first step (materials) or last step (products) report something else
+                o.class("dissent-inside-delegation");
+                let inner_step = if spec.products_side { inner.layout.steps.last() } else { inner.layout.steps.first() }.map(|s| s.name.clone());
+                if let Some(name) = inner_step {
+                    let mut first: Option<Artifacts> = None;
+                    for f in inner.links.iter_mut().filter(|f| f.step == name) {
+                        if let Body::Link { link, .. } = &mut f.body {
+                            let side = if spec.products_side { &mut link.products } else { &mut link.materials };
+                            let changed = first.clone().unwrap_or_else(|| dissenting(side, &spec.dissent, spec.entry));
+                            if &changed != side {
+                                real = true;
+                            }
+                            first = Some(changed.clone());
+                            *side = changed;
+                        }
+                    }
+                }
+            }
+            _ => {}
         }
         let now = now_secs();
         let dir = env.fresh_dir("c07");
